@@ -468,6 +468,35 @@ class Gen:
         if self.ops[-1]["k"] == "process":
             self.pool.append(self.pool[-1].copy())
 
+    def g_roundtrip_mat(self):
+        """A -> B, materialized in B, evaluated (so the node caches its rows), transferred on - possibly through a
+        third engine - back to A, evaluated again: the cached node must stay in the tree and be used."""
+        r = self.rng
+        i = self.pick(lambda s: not s.pending)
+        if i is None or len(self.engines) < 2:
+            return
+        sh = self.pool[i]
+        b = r.choice([e for e in self.engines if e != sh.eng])
+        self.ops.append({"k": "xfer", "t": i, "to": b})
+        self.pool.append(sh.copy(eng=b, pending=False, multi=True))
+        self.nmat += 1
+        self.ops.append({"k": "mat", "t": len(self.pool) - 1, "name": f"m{self.nmat}"})
+        self.pool.append(self.pool[-1].copy(mat=True))
+        m = len(self.pool) - 1
+        self.ops.append({"k": r.choice(["run", "process"]), "t": m})
+        if self.ops[-1]["k"] == "process":
+            self.pool.append(self.pool[m].copy())
+        cur = m
+        others = [e for e in self.engines if e not in (sh.eng, b)]
+        if others and r.random() < 0.6:
+            c = r.choice(others)
+            self.ops.append({"k": "xfer", "t": cur, "to": c})
+            self.pool.append(self.pool[cur].copy(eng=c))
+            cur = len(self.pool) - 1
+        self.ops.append({"k": "xfer", "t": cur, "to": sh.eng})
+        self.pool.append(self.pool[cur].copy(eng=sh.eng))
+        self.ops.append({"k": "run", "t": len(self.pool) - 1})
+
     def g_join(self):
         r = self.rng
         i = self.pick()
@@ -641,6 +670,13 @@ class Gen:
                 base["tag"] = r.choice(sorted(tgt.cols))
                 edit = "dup"
             elif tgt.eng == "sql":
+                if r.random() < 0.5:
+                    # first a *valid* call with the unrestricted twin of the same function on the same relation ...
+                    free = [t for t in ["x", "y", "z", "w"] if t not in tgt.cols and t != base["tag"]]
+                    if free:
+                        self.ops.append({"k": "calc", "t": base["t"], "tag": free[0], "e": ["udfu", "itonly", base["e"]]})
+                        self.pool.append(tgt.copy(cols=tgt.cols | {free[0]}))
+                # ... then the engine-restricted one, which must be rejected
                 base["e"] = ["udf", "itonly", base["e"]]
                 if base.get("pe") not in (None, "sql"):
                     if r.random() < 0.5:
